@@ -180,6 +180,10 @@ pub enum Door {
     Ipv6Exts(u8),
     /// bytes start at a transport header announced by this ip number
     Transport(u8),
+    /// bytes are a raw TCP option area
+    TcpOpts,
+    /// bytes are a raw NDP option area
+    NdpOpts,
 }
 
 impl Door {
@@ -192,6 +196,8 @@ impl Door {
             Door::Ipv4Exts(n) => format!("ipv4exts({})", n),
             Door::Ipv6Exts(n) => format!("ipv6exts({})", n),
             Door::Transport(n) => format!("transport({})", n),
+            Door::TcpOpts => "tcpopts".into(),
+            Door::NdpOpts => "ndpopts".into(),
         }
     }
     pub fn code(self) -> u64 {
@@ -203,6 +209,8 @@ impl Door {
             Door::Ipv4Exts(n) => 0x2_0000 | n as u64,
             Door::Ipv6Exts(n) => 0x3_0000 | n as u64,
             Door::Transport(n) => 0x4_0000 | n as u64,
+            Door::TcpOpts => 4,
+            Door::NdpOpts => 5,
         }
     }
     pub fn parse(s: &str) -> Option<Door> {
@@ -220,6 +228,10 @@ impl Door {
             Some(Door::Sll)
         } else if s == "ip" {
             Some(Door::Ip)
+        } else if s == "tcpopts" {
+            Some(Door::TcpOpts)
+        } else if s == "ndpopts" {
+            Some(Door::NdpOpts)
         } else if let Some(r) = s.strip_prefix("ether(") {
             num(r).map(|v| Door::Ether(v as u16))
         } else if let Some(r) = s.strip_prefix("ipv4exts(") {
